@@ -4,7 +4,7 @@ use crate::model::STALE_SECS;
 use crate::universe::*;
 use crate::world::*;
 use simcore::{Rng, Tier};
-use std::collections::{BTreeMap, BTreeSet, VecDeque};
+use std::collections::{BTreeSet, VecDeque};
 
 pub fn gen_config(profile: &str, rng: &mut Rng, tier: Tier) -> Config {
 	let mode = match profile {
@@ -292,12 +292,17 @@ impl Sched {
 		if rng.chance(gc.async_pct as u64, 100) {
 			return UtxoPlan::Async;
 		}
-		UtxoPlan::Sync(match rng.weighted(&[75, 10, 10, 5]) {
+		let ans = match rng.weighted(&[75, 10, 10, 5]) {
 			0 => UtxoAnswer::Real,
 			1 => UtxoAnswer::WrongScript,
 			2 => UtxoAnswer::UnknownTx,
 			_ => UtxoAnswer::UnknownChain,
-		})
+		};
+		if gc.async_pct > 0 && rng.chance(10, 100) {
+			UtxoPlan::AsyncDone(ans)
+		} else {
+			UtxoPlan::Sync(ans)
+		}
 	}
 
 	fn gen_ca(&mut self, wd: &World, rng: &mut Rng) -> Action {
@@ -618,12 +623,10 @@ impl Sched {
 						utxo: match gc.order_lookup {
 							0 => UtxoPlan::NoLookup,
 							1 => UtxoPlan::Sync(UtxoAnswer::Real),
-							_ => {
-								if rng.coin() {
-									UtxoPlan::Async
-								} else {
-									UtxoPlan::Sync(UtxoAnswer::Real)
-								}
+							_ => match rng.below(5) {
+								0 | 1 => UtxoPlan::Async,
+								2 => UtxoPlan::AsyncDone(UtxoAnswer::Real),
+								_ => UtxoPlan::Sync(UtxoAnswer::Real),
 							},
 						},
 					},
@@ -722,6 +725,3 @@ fn scid_key(s: ScidRef) -> ScidKey {
 		ScidRef::Phantom(k) => (1, k as usize),
 	}
 }
-
-#[allow(dead_code)]
-fn _unused(_: BTreeMap<u8, u8>) {}
